@@ -87,19 +87,20 @@ NEAR_TIE_EPS = [5e-7, 1e-7, 1e-8, 1e-9]                                       # 
 
 
 def plan(tier):
+    # floors: ~80% of what was measured on the current tree (core requires half of the stated figure).  res2pix / filter_radius:
+    # 1.6 x what the driver's OWN direct calls give (=> floor at 80% of it); calls coming from inside cryoCAT are not counted on,
+    # see drive_cutoff_rule
     if tier == "quick":
         return dict(n_cases=28 * len(CLASSES), shards=1, classes=CLASSES, timeout_s=900,
-                    min_evals={"lp_gain": 1200, "lp_hard_edge": 700, "lp_soft_edge": 400, "lp_soft_rays": 300, "lp_soft_symmetry": 220,
-                               "hp_gain": 1200, "hp_complement": 1200, "bp_difference": 500, "bp_gain": 500,
-                               # res2pix / filter_radius: 1.6 x what the driver's OWN direct calls give (core halves the figure => floor at
-                               # 80% of it); calls coming from inside cryoCAT are not counted on, see drive_cutoff_rule
-                               "res2pix": 3300, "filter_radius": 4500, "linearity": 250, "shift_commute": 250, "plane_wave": 2500,
-                               "resolution_equiv": 100})
+                    min_evals={"lp_gain": 4400, "lp_hard_edge": 2800, "lp_soft_edge": 1500, "lp_soft_rays": 800, "lp_soft_symmetry": 700,
+                               "hp_gain": 4200, "hp_complement": 4200, "bp_difference": 1600, "bp_gain": 1600,
+                               "res2pix": 12900, "filter_radius": 28700, "linearity": 1100, "shift_commute": 580, "plane_wave": 8000,
+                               "resolution_equiv": 500})
     return dict(n_cases=16 * 50 * len(CLASSES), shards=16, classes=CLASSES, timeout_s=3300,
-                min_evals={"lp_gain": 50000, "lp_hard_edge": 25000, "lp_soft_edge": 25000, "lp_soft_rays": 8000, "lp_soft_symmetry": 6000,
-                           "hp_gain": 50000, "hp_complement": 50000, "bp_difference": 25000, "bp_gain": 25000, "res2pix": 67000,
-                           "filter_radius": 100000, "linearity": 8000, "shift_commute": 8000, "plane_wave": 120000,
-                           "resolution_equiv": 5000})
+                min_evals={"lp_gain": 90000, "lp_hard_edge": 45000, "lp_soft_edge": 45000, "lp_soft_rays": 20000, "lp_soft_symmetry": 16000,
+                           "hp_gain": 90000, "hp_complement": 90000, "bp_difference": 45000, "bp_gain": 45000, "res2pix": 130000,
+                           "filter_radius": 200000, "linearity": 30000, "shift_commute": 15000, "plane_wave": 150000,
+                           "resolution_equiv": 12000})
 
 
 # ---- the quantifier as predicates ---------------------------------------------------------------
